@@ -18,7 +18,7 @@ func run(c *core.Ctx) {
 		"response side: every valid result value (C03's enumeration) and every declared error (C05's constructors) returned by the stub: the recorded response must pass ValidateResponse for its status (undocumented status fails); " +
 		"one case = one exchange; non-trivial = constraint-violating payloads, malformed encodings and every response")
 	c.Assume("goa documents bodies of equal structure with one shared schema: in the shared corpora an operation whose body schema is also referenced by a differently constrained operation is reported once (schema-shared) and its body values are not compared; " +
-		"the body-located cases are additionally run one method per design (val-*-iso, l1*-single-iso) where every operation owns its schemas")
+		"the body-located cases are additionally run one method per design (iso-val-*, iso-l1*-single) where every operation owns its schemas")
 	c.Assume("format keywords: every goa format name is registered in kin-openapi with a validator backed by the constructive tables of e2/spec/formats.go; strings outside the tables are never sent")
 	c.Assume("kin-openapi computes numbers in float64: payloads containing an integer beyond 2^53 are not compared")
 	c.Assume("a document that only fails to load because exclusiveMinimum/exclusiveMaximum are numbers (C07's finding) is read the draft-6 way (minimum + exclusiveMinimum:true) so that the remaining keywords can still be compared")
